@@ -30,6 +30,7 @@ pub trait Base: StarkField + ExtensibleField<2> + ExtensibleField<3> + 'static {
     const NEW_BITS: usize;
     fn new_big(v: &Big) -> Self;
     fn int_big(&self) -> Big;
+    fn modulus_big() -> Big;
     fn pow_of(e: &Big) -> Self::PositiveInteger;
     const POW_BITS: usize;
     fn from_mont(_m: u64) -> Option<Self> {
@@ -53,6 +54,9 @@ impl Base for f64::BaseElement {
     }
     fn int_big(&self) -> Big {
         Big::from_u64(StarkField::as_int(self))
+    }
+    fn modulus_big() -> Big {
+        Big::from_u64(<Self as StarkField>::MODULUS)
     }
     fn pow_of(e: &Big) -> u64 {
         e.to_u64()
@@ -86,6 +90,9 @@ impl Base for f62::BaseElement {
     fn int_big(&self) -> Big {
         Big::from_u64(StarkField::as_int(self))
     }
+    fn modulus_big() -> Big {
+        Big::from_u64(<Self as StarkField>::MODULUS)
+    }
     fn pow_of(e: &Big) -> u64 {
         e.to_u64()
     }
@@ -110,6 +117,9 @@ impl Base for f128::BaseElement {
     }
     fn int_big(&self) -> Big {
         Big::from_u128(StarkField::as_int(self))
+    }
+    fn modulus_big() -> Big {
+        Big::from_u128(<Self as StarkField>::MODULUS)
     }
     fn pow_of(e: &Big) -> u128 {
         e.to_u128()
@@ -249,6 +259,8 @@ where
     skip_zero_m: bool,
     /// quick tier: fewer / shorter square-and-multiply chains (TLC cost is ~30 ms per link)
     quick: bool,
+    /// C11 recorder: `mk` must build exactly the requested value (no From<small int> detours)
+    exact_new: bool,
     _e: std::marker::PhantomData<E>,
 }
 
@@ -281,6 +293,7 @@ where
             dir: None,
             skip_zero_m: false,
             quick: true,
+            exact_new: false,
             _e: std::marker::PhantomData,
         }
     }
@@ -482,7 +495,7 @@ where
         m.insert("d".into(), json!(1));
         let kinds = <B<E>>::small_kinds();
         let (label, width) = kinds[self.rng.below(kinds.len() as u64) as usize];
-        let small = v.bits() <= 64 && self.rng.below(4) == 0;
+        let small = !self.exact_new && v.bits() <= 64 && self.rng.below(4) == 0;
         let (vin, e) = if small {
             let vv = if width >= 64 { v.to_u64() } else { v.to_u64() & ((1u64 << width) - 1) };
             m.insert("via".into(), json!(label));
@@ -1256,6 +1269,172 @@ where
     for sc in from..to {
         ctx.scenario(seed, combo, sc);
     }
+}
+
+// ------------------------------------------------------------------------------------------------
+// C11: constants recorder
+// ------------------------------------------------------------------------------------------------
+fn plan_big(v: &Value) -> Big {
+    Big::from_le_bytes(&v.as_array().map(|a| a.iter().map(|x| x.as_u64().unwrap_or(0) as u8).collect::<Vec<u8>>()).unwrap_or_default())
+}
+
+/// Base-field part: constants, generator powers (Lucas/Pratt conditions), Euler criterion of the
+/// quadratic discriminant, and get_root_of_unity(n) for every n.
+fn consts_base<Bf: Base + Elem<BaseField = Bf>>(seed: u64, combo: u64, plan: &Value) {
+    let mut ctx = Ctx::<Bf>::new(seed, combo);
+    ctx.exact_new = true;
+    ctx.sc = 0;
+    let name = <Bf as Base>::NAME;
+    let pl = &plan[name];
+    // constants
+    let mut m = ctx.head("consts");
+    let vals = catch(|| {
+        json!({
+            "modulus_le": jraw(&Bf::get_modulus_le_bytes()),
+            "modulus": jbytes(&<Bf as Base>::modulus_big()),
+            "bits": Bf::MODULUS_BITS,
+            "two_adicity": Bf::TWO_ADICITY,
+            "generator": jbytes(&Bf::GENERATOR.int_big()),
+            "root": jbytes(&Bf::TWO_ADIC_ROOT_OF_UNITY.int_big()),
+            "element_bytes": Bf::ELEMENT_BYTES,
+            "ext_degree": Bf::EXTENSION_DEGREE,
+            "zero": jbytes(&Bf::ZERO.int_big()),
+            "one": jbytes(&Bf::ONE.int_big()),
+            "is_canonical": Bf::IS_CANONICAL as u8,
+            "ext2": <Bf as ExtensibleField<2>>::is_supported() as u8,
+            "ext3": <Bf as ExtensibleField<3>>::is_supported() as u8,
+        })
+    });
+    match vals {
+        Ok(v) => {
+            for (k, x) in v.as_object().unwrap() {
+                m.insert(k.clone(), x.clone());
+            }
+        },
+        Err(p) => {
+            m.insert("panic".into(), json!(p));
+        },
+    }
+    ctx.line(&m);
+    // GENERATOR^(p-1), GENERATOR^((p-1)/q)
+    let g = ctx.wrap(Bf::GENERATOR, "const", &[]);
+    for e in pl["exps"].as_array().unwrap() {
+        ctx.sc += 1;
+        ctx.k = 0;
+        let _ = ctx.exp(g, &plan_big(e));
+    }
+    // Euler criterion for the discriminant of the quadratic extension polynomial
+    ctx.sc += 1;
+    if let Some(d) = ctx.mk(&[plan_big(&pl["disc"])]) {
+        let _ = ctx.exp(d, &plan_big(&pl["half"]));
+    }
+    // roots of unity of every order
+    let p = ctx.fb.p.clone();
+    for n in 1..=Bf::TWO_ADICITY {
+        ctx.sc += 1;
+        ctx.k = 0;
+        let mut m = ctx.head("root");
+        m.insert("n".into(), json!(n));
+        if let Some(w) = ctx.call(&mut m, move || Bf::get_root_of_unity(n)) {
+            let wb = w.int_big();
+            let (mut sq, mut h) = (vec![], vec![]);
+            let mut cur = wb.clone();
+            for _ in 0..n {
+                let prod = cur.mul(&cur);
+                let (q, r) = prod.divrem(&p);
+                h.push(json!({"q": jbytes(&q)}));
+                sq.push(jbytes(&r));
+                cur = r;
+            }
+            m.insert("w".into(), jbytes(&wb));
+            m.insert("sq".into(), Value::Array(sq));
+            m.insert("h".into(), Value::Array(h));
+            ctx.line(&m);
+        }
+    }
+    ctx.out.flush().unwrap();
+}
+
+/// Extension part: constants, Frobenius (conjugate) against chains and basis images, unit witness
+fn consts_ext<E: Elem>(seed: u64, combo: u64, thorough: bool)
+where
+    B<E>: Base,
+{
+    let mut ctx = Ctx::<E>::new(seed, combo);
+    ctx.quick = !thorough;
+    ctx.sc = 1000;
+    let d = E::D;
+    let mut m = ctx.head("econsts");
+    m.insert("element_bytes".into(), json!(E::ELEMENT_BYTES));
+    m.insert("ext_degree".into(), json!(E::EXTENSION_DEGREE));
+    m.insert("zero".into(), jcoords(&Ctx::<E>::coords(&E::ZERO)));
+    m.insert("one".into(), jcoords(&Ctx::<E>::coords(&E::ONE)));
+    m.insert("is_canonical".into(), json!(E::IS_CANONICAL as u8));
+    ctx.line(&m);
+    // conjugate() of the basis elements and of boundary-biased elements: chains and linear form
+    let mut xs: Vec<Vec<Big>> = vec![];
+    for k in 1..d {
+        let mut v = vec![Big::zero(); d];
+        v[k] = Big::one();
+        xs.push(v);
+    }
+    xs.push(vec![ctx.fb.p.sub(&Big::one()); d]);
+    for (i, v) in xs.iter().enumerate() {
+        ctx.sc += 1;
+        ctx.k = 0;
+        if let Some(x) = ctx.mk(v) {
+            if i < d - 1 || thorough {
+                let _ = ctx.unary("conj_chain", x);
+            }
+            let _ = ctx.unary("conj", x);
+        }
+    }
+    for _ in 0..(if thorough { 40 } else { 8 }) {
+        ctx.sc += 1;
+        ctx.k = 0;
+        ctx.rng = Rng::new(seed, combo, ctx.sc);
+        if let Some(x) = ctx.gen_elem() {
+            let _ = ctx.unary("conj", x);
+        }
+    }
+    // (x^p - x) is a unit modulo the extension polynomial (witness computed by the hint helper)
+    let fs = ctx.fs.clone();
+    let mut g = fs.frob_img(1).clone();
+    g[1] = if g[1].is_zero() { fs.p.sub(&Big::one()) } else { g[1].sub(&Big::one()) };
+    let mut order = Big::one();
+    for _ in 0..d {
+        order = order.mul(&fs.p);
+    }
+    let w = fs.pow_exact(&g, &order.sub(&Big::from_u64(2)));
+    let h = fs.mul_hints(&g, &w, &fs.one());
+    let mut m = ctx.head("unit");
+    m.insert("w".into(), jcoords(&w));
+    m.insert("h".into(), h);
+    m.insert("cert".into(), json!(1));
+    ctx.line(&m);
+    ctx.out.flush().unwrap();
+}
+
+/// `consts-child <seed> <plan.json> <tier>`
+pub fn consts_child_main(args: &[String]) -> i32 {
+    let seed: u64 = args[0].parse().unwrap();
+    let plan: Value = serde_json::from_str(&std::fs::read_to_string(&args[1]).expect("plan")).expect("plan json");
+    let thorough = args.get(2).map(|s| s == "thorough").unwrap_or(false);
+    consts_base::<f64::BaseElement>(seed, 100, &plan);
+    consts_base::<f62::BaseElement>(seed, 103, &plan);
+    consts_base::<f128::BaseElement>(seed, 106, &plan);
+    consts_ext::<QuadExtension<f64::BaseElement>>(seed, 101, thorough);
+    consts_ext::<CubeExtension<f64::BaseElement>>(seed, 102, thorough);
+    consts_ext::<QuadExtension<f62::BaseElement>>(seed, 104, thorough);
+    consts_ext::<CubeExtension<f62::BaseElement>>(seed, 105, thorough);
+    consts_ext::<QuadExtension<f128::BaseElement>>(seed, 107, thorough);
+    let mut out = std::io::stdout();
+    for v in frobcert_events() {
+        serde_json::to_writer(&mut out, &v).unwrap();
+        out.write_all(b"\n").unwrap();
+    }
+    println!("{{\"done\":true}}");
+    0
 }
 
 /// certificates for the committed Frobenius basis images of FieldDefs.tla: chains for (x^k)^p.
